@@ -935,6 +935,12 @@ func (env *Env) call(x *ast.CallExpr) Val {
 			return tb.Or(tb.Eq(ref, tb.Int(0)), tb.And(tb.Not(tb.Select(u.allocSet(env.old.st), ref)), tb.Lt(tb.Int(0), ref)))
 		}
 		return tb.Or(tb.Eq(ref, tb.Int(0)), tb.And(tb.Not(u.isAlloc0(ref)), tb.Lt(tb.Int(0), ref)))
+	case "sliceOf":
+		// sliceOf(a, b): a lies inside b (same backing array, within b's bounds)
+		a := env.eval(x.Args[0]).(*Term)
+		b := env.eval(x.Args[1]).(*Term)
+		return tb.And(tb.Eq(m.SliceRef(a), m.SliceRef(b)), m.IxLe(m.SliceOff(b), m.SliceOff(a)),
+			m.IxLe(m.IxAdd(m.SliceOff(a), m.SliceLen(a)), m.IxAdd(m.SliceOff(b), m.SliceLen(b))))
 	case "sameSlice":
 		// sameSlice(a, b): the same slice header (array, start, length, capacity)
 		return tb.Eq(env.eval(x.Args[0]).(*Term), env.eval(x.Args[1]).(*Term))
